@@ -5,8 +5,10 @@ ROOT = os.path.dirname(os.path.dirname(os.path.abspath(__file__)))
 REPO = os.environ.get('VERIF_REPO', '/repo')  # VERIF_REPO: scratch copy, for mutation experiments only
 COQ = os.path.join(ROOT, 'coq')
 OCAML_BUILD = os.path.join(ROOT, 'ocaml', '_build')
-EVIDENCE = os.path.join(ROOT, 'evidence')
-REPLAYS = os.path.join(ROOT, 'replays')
+# runs against a scratch copy (mutation experiments) must not overwrite the evidence and replays of /repo
+_SCRATCH = os.path.realpath(REPO) != '/repo'
+EVIDENCE = os.path.join(ROOT, 'evidence') if not _SCRATCH else '/tmp/verif_scratch_runs/evidence'
+REPLAYS = os.path.join(ROOT, 'replays') if not _SCRATCH else '/tmp/verif_scratch_runs/replays'
 CORPUS = os.path.join(ROOT, 'corpus')
 VENV_PY = '/venv/bin/python'
 
